@@ -7,6 +7,7 @@ import (
 	"fmt"
 	"io"
 	"strings"
+	"testing/iotest"
 
 	carv1 "github.com/ipld/go-car"
 	carv2 "github.com/ipld/go-car/v2"
@@ -116,6 +117,7 @@ func c02Readers() []c02Reader {
 	plain := func(b []byte) io.Reader { return lab.PlainReader{R: bytes.NewReader(b)} }
 	onebyte := func(b []byte) io.Reader { return lab.OneByteReader{R: bytes.NewReader(b)} }
 	buffered := func(b []byte) io.Reader { return bufio.NewReaderSize(bytes.NewReader(b), 64) }
+	dataErr := func(b []byte) io.Reader { return iotest.DataErrReader(lab.PlainReader{R: bytes.NewReader(b)}) } // last byte comes with io.EOF
 	inspect := func(validate bool) func([]byte) ([]refcar.Block, bool, error) {
 		return func(in []byte) ([]refcar.Block, bool, error) {
 			rd, err := carv2.NewReader(bytes.NewReader(in))
@@ -134,6 +136,8 @@ func c02Readers() []c02Reader {
 		{name: "v2.BlockReader.Next(plain)", hashes: true, returns: true, run: next(plain)},
 		{name: "v2.BlockReader.Next(1-byte reads)", hashes: true, returns: true, run: next(onebyte)},
 		{name: "v2.BlockReader.Next(bufio.Reader)", hashes: true, returns: true, run: next(buffered)},
+		{name: "v2.BlockReader.Next(data+EOF reader)", hashes: true, returns: true, run: next(dataErr)},
+		{name: "v2.BlockReader.SkipNext(data+EOF reader)", run: skip(dataErr)},
 		{name: "v2.BlockReader.SkipNext(bufio.Reader)", run: skip(buffered)},
 		{name: "v2.BlockReader.SkipNext(bytes.Reader)", run: skip(seekable)},
 		{name: "v2.BlockReader.SkipNext(plain)", run: skip(plain)},
@@ -565,7 +569,7 @@ func init() {
 	Register(&mon.Check{
 		ID:          "C02",
 		Level:       "exploration",
-		Rule:        "cases = (seeded small valid archive, container kind, mutation family); family cuts = EVERY proper prefix of the archive, family flips = every byte with one seeded bit (quick) or all 8 bits (thorough), family random = 200 random mutations (hash oracle only); plus archives holding one section of 1 MiB+4 KiB / 2 MiB-1 / 2 MiB / 3 MiB (3- and 4-byte length varints) with every offset outside that block and ~30 sampled offsets inside it; each mutated input goes through 15 scanning readers (three of them with ZeroLengthSectionAsEOF on) (v2 BlockReader.Next on 3 source kinds, SkipNext on 2, Inspect(true|false), root CarReader, root LoadCar slow+batch); events_observed counts reader executions; non-trivial = every case (each holds ≥1 section)",
+		Rule:        "cases = (seeded small valid archive, container kind, mutation family); family cuts = EVERY proper prefix of the archive, family flips = every byte with one seeded bit (quick) or all 8 bits (thorough), family random = 200 random mutations (hash oracle only); plus archives holding one section of 1 MiB+4 KiB / 2 MiB-1 / 2 MiB / 3 MiB (3- and 4-byte length varints) with every offset outside that block and ~30 sampled offsets inside it; each mutated input goes through 17 scanning readers (three of them with ZeroLengthSectionAsEOF on) (v2 BlockReader.Next on 3 source kinds, SkipNext on 2, Inspect(true|false), root CarReader, root LoadCar slow+batch); events_observed counts reader executions; non-trivial = every case (each holds ≥1 section)",
 		Assumptions: []string{"reference section table (refcar) decides where a cut/flip lands", "hashes recomputed with Go stdlib/x-crypto", "cuts at a section boundary and cuts after the end of a CARv2 payload are exempt from the truncation clause, as the property states"},
 		Gen:         genC02,
 		Run:         runC02,
